@@ -134,4 +134,7 @@ def run(tier, seed):
     })
     res.assumptions = ["replica part: writes issued on the primary (writes issued on secondaries are C04)",
                        "operation ids come from a strictly increasing virtual clock"]
+    # free-running rounds: real threads, no scheduler, no hook involved (lock regions without a yield point)
+    import stress
+    res.coverage.update(stress.run_part(res, wd, devs, ['newer'], tier, seed))
     return res, known
